@@ -193,6 +193,12 @@ func Supervise(a SuperArgs) int {
 			}
 			res.Violations = append(res.Violations, Violation{Property: a.Prop, Sig: sig, Msg: "worker process died: " + trunc(errTail, 1500), Input: input, Tier: a.Tier, Seed: a.Seed, Batch: batch, Index: index})
 			res.VioCount[sig]++
+		case strings.Contains(errTail, "panic:") && panicSite(errTail) != "unknown":
+			// a panic that escaped every recover and has a repository frame on its stack:
+			// the library panicked in a call the harness had not wrapped
+			sig := "panic:unrecovered:" + panicSite(errTail)
+			res.Violations = append(res.Violations, Violation{Property: a.Prop, Sig: sig, Msg: "worker process died with a panic inside the library: " + trunc(errTail, 1500), Input: input, Tier: a.Tier, Seed: a.Seed, Batch: batch, Index: index})
+			res.VioCount[sig]++
 		default:
 			inconclusive = append(inconclusive, fmt.Sprintf("worker %d exited with %d (harness failure?): %s", i, code, trunc(errTail, 1500)))
 		}
